@@ -179,6 +179,7 @@ def execute(prop, case):
         rec['extra'] = [id(o) for o in ret] == [id(o) for o in matched] and [id(o) for o in left] == [id(o) for o in want] and \
             all(any(s is hub for s in o.successors) == (not any(o is m for m in matched)) for o in src_list)
     elif matched is not None and case['action'] == 'remove' and case['source'] in ('tasks', 'roots'):
+        shape = {id(o): (o.parent, [id(c) for c in o.children]) for o in objs}
         if case['source'] == 'tasks':
             ret = w.remove_all(**kwargs)
         else:
@@ -192,6 +193,13 @@ def execute(prop, case):
         still = set(id(t) for t in w.tasks)
         rec['extra'] = [uid[id(o)] for o in ret] == [uid[id(o)] for o in matched] and \
             all((id(o) in still) == (id(o) not in gone) for o in objs) and all(o.wbs is None for o in objs if id(o) in gone)
+        # "with their subtrees": a removed branch leaves in one piece - below a removed task nothing moves (a match nested in another match
+        # stays where it is inside the removed branch); only the top-most removed tasks lose their parent
+        for o in objs:
+            if id(o) in gone:
+                par, kids = shape[id(o)]
+                top = par is None or id(par) not in gone
+                rec['extra'] = rec['extra'] and [id(c) for c in o.children] == kids and (o.parent is None if top else o.parent is par)
     return rec
 
 
